@@ -41,6 +41,14 @@ func c01Corpus(r *Run) []*pipeline.Case {
 		e.Cfg.DurationType = nil
 		cases = append(cases, caseFrom(descgen.Rename(e, "k14time")))
 	}
+	{
+		// a custom_types key in the two-segment form of a selected type that also occurs nested in other
+		// selected types (C01 only: whether such a key reaches the nested occurrences is decided by no property;
+		// whatever the generator makes of them has to compile against hooks named after the configured suffix)
+		e := descgen.CuratedByName("k15")
+		e.Cfg.CustomTypes["LabelEntry.value"] = "verif/types.Boxed"
+		cases = append(cases, caseFrom(descgen.Rename(e, "k15mf")))
+	}
 	for i, e := range descgen.Curated() {
 		if r.thorough() || i%2 == 0 {
 			c := separate(e, i%4 == 0)
@@ -51,6 +59,7 @@ func c01Corpus(r *Run) []*pipeline.Case {
 			c.PrefixTarget = i%8 == 4 && !c.SameName
 			c.HyphenPath = i%8 == 6 && !c.DottedPath
 			c.FullPathOverride = i%8 == 4 && !c.UseOverride
+			c.DecoyPrefixOverrides = i%4 == 2
 			cases = append(cases, c)
 		}
 	}
